@@ -143,6 +143,18 @@ def check_flows(ctx, dct, wr, pr, rp, num=2):
     if len(segs) == 1:
         lp = enclosing_for(segs[0], cp.node)
         rv = lp.target.id if lp is not None and isinstance(lp.target, ast.Name) else "row"
+        if lp is not None:
+            # ... for every row: a segment that is looked up instead of built (a cache keyed on some of the columns) carries another row's values
+            gcp = cfg_of(cp, subst_env=False)
+            hid = gcp.node_of(lp).id
+            skip = gcp.path_avoiding(hid, {hid, gcp.exit.id}, {gcp.node_of(segs[0]).id}, edge_ok=lambda a, b, lab, hid=hid: not (a == hid and lab == "done"))
+            adds = [c for c in ast.walk(lp) if isinstance(c, ast.Call) and isinstance(c.func, ast.Attribute) and c.func.attr == "add_segment"]
+            fresh = len(adds) == 1 and adds[0].args and (adds[0].args[0] is segs[0] or (isinstance(adds[0].args[0], ast.Name) and len(
+                [d_ for d_ in ast.walk(lp) if isinstance(d_, ast.Assign) and norm.is_name(d_.targets[0], adds[0].args[0].id)]) == 1
+                and isinstance(parent(segs[0]), ast.Assign) and norm.is_name(parent(segs[0]).targets[0], adds[0].args[0].id)))
+            ctx.ob(num, "K6", "every row gets a segment built from its own columns (constructed in every iteration, and that object is the one attached)", skip is None and bool(fresh), cp, segs[0],
+                   construct="Segment(...) per row, attached", detail=("constructed on every path of the iteration" if skip is None else f"an iteration can avoid the construction: {gcp.describe_path(skip)}")
+                   + f"; add_segment receives the freshly built object: {bool(fresh)}")
         for col in RESOURCE:
             v = norm.kwarg(segs[0], col)
             ctx.ob(num, "K6", f"the segment's {col} is the row's {col}, unchanged", v is not None and norm.U(v) == f"{rv}.{col}", cp, segs[0], construct=f"Segment({col}=row.{col})",
@@ -360,6 +372,22 @@ def check_refusals(ctx, num=5):
         for k, pred in want.items():
             if pred(fs, rv, iv):
                 found[k] = (r, True)
+    # ... and these are the only reasons: a further `raise` rejects traces the writer may well have produced (a zero, an unusual but legal value)
+    bp = cp.params()[1] if len(cp.params()) > 1 else "batch"
+    matched = {id(v[0]) for v in found.values() if v}
+    for r in raises:
+        if id(r) in matched:
+            continue
+        fs = g.facts_at(r)
+        lp = enclosing_for(r, cp.node)
+        rv = lp.target.elts[1].id if lp is not None and isinstance(lp.target, ast.Tuple) and len(lp.target.elts) == 2 and isinstance(lp.target.elts[1], ast.Name) else None
+        iv = lp.target.elts[0].id if rv else None
+        known = norm.entails(fs, ("truth", bp, False)) \
+            or any(a[0] == "cmp" and a[1] == "!=" and a[2].endswith("pipeline_id") and a[3].endswith("pipeline_id") for a in fs) \
+            or (rv is not None and any(pred(fs, rv, iv) for pred in want.values()))
+        ctx.ob(num, "K2", "the reader refuses a pipeline only for the documented malformations (empty group, mixed pipeline ids, priority / arrival on the wrong rows); "
+               "everything the writer can produce is accepted", known, cp, r, construct="no further refusal",
+               detail=f"facts at the raise: {sorted(norm.show(x) for x in fs)[:8]}")
     for k, v in found.items():
         ctx.ob(num, "K2", f"a trace with a {k} is refused with an error", v is not None and v[1], cp, v[0] if v else cp.node, construct=f"refusal: {k}",
                detail="raise reached under exactly this condition" if v and v[1] else ("raise found but under additional conditions" if v else "no raise under this condition"))
